@@ -433,12 +433,39 @@ type RunOpts struct {
 	Env      []string
 	WallSec  int // whole-child wall limit per (re)start, default 600
 	MemLimit string
+	NoRetry   bool
 	MaxDeaths int // stop after this many child deaths/timeouts (0 = 40); the remaining cases get no result
 }
 
 // Run executes the cases; the child is restarted after a case that kills it. The result for a
 // case that killed the child has Died set (stderr tail) or Timeout set.
 func (b *Batch) Run(cases []*mon.Case, ro RunOpts) (map[string]*mon.Result, error) {
+	results, err := b.run(cases, ro, b.Timeout)
+	if ro.NoRetry {
+		return results, err
+	}
+	// A watchdog firing can be the machine's fault (CPU steal, load): every case that timed out is
+	// run once more, alone, with an eight times longer watchdog; only that second observation counts.
+	byID := map[string]*mon.Case{}
+	for _, c := range cases {
+		byID[c.ID] = c
+	}
+	n := 0
+	for id, r := range results {
+		if !r.Timeout || n >= 6 {
+			continue
+		}
+		n++
+		r2, _ := b.run([]*mon.Case{byID[id]}, RunOpts{Env: ro.Env, MemLimit: ro.MemLimit, MaxDeaths: 1, WallSec: b.Timeout*8 + 30}, b.Timeout*8)
+		if x, ok := r2[id]; ok {
+			x.Retried = true
+			results[id] = x
+		}
+	}
+	return results, err
+}
+
+func (b *Batch) run(cases []*mon.Case, ro RunOpts, timeout int) (map[string]*mon.Result, error) {
 	results := make(map[string]*mon.Result, len(cases))
 	remaining := cases
 	round := 0
@@ -465,7 +492,7 @@ func (b *Batch) Run(cases []*mon.Case, ro RunOpts) (map[string]*mon.Result, erro
 			wall = 900
 		}
 		ctx, cancel := context.WithTimeout(context.Background(), time.Duration(wall)*time.Second)
-		cmd := exec.CommandContext(ctx, b.Bin, cf, rf, pf, fmt.Sprint(b.Timeout))
+		cmd := exec.CommandContext(ctx, b.Bin, cf, rf, pf, fmt.Sprint(timeout))
 		cmd.Cancel = func() error { return cmd.Process.Signal(syscall.SIGQUIT) }
 		cmd.WaitDelay = 5 * time.Second
 		errf, _ := os.Create(ef)
